@@ -236,7 +236,8 @@ Definition effective_level (arg : option Z) (script : list byte) : result pragma
   let code := fst (process_embedded_query_expr script) in
   match process_pragma code with
   | Err e => Err e
-  | Ok p => match arg with Some k => Ok (PLevel k) | None => Ok p end
+  | Ok PUnmodelled => Ok PUnmodelled     (* the unmodelled literal may have raised *)
+  | Ok (PLevel l) => match arg with Some k => Ok (PLevel k) | None => Ok (PLevel l) end
   end.
 
 (* ---- flatten_data_values -------------------------------------------------- *)
